@@ -124,5 +124,6 @@ def install(ex):
 
 EXPLAIN = {"C16": "VCs from the real ARegridding._need_mask / _get_in_coords / _get_out_coords (pairing of coordinate rows with the compression order) "
                   "plus the bounded native stand-in bnd_regrid.py (real links through RegridNearest / RegridLinear against a coordinate-based oracle)"}
-BOUNDED = {"C16": [{"name": "regrid-links", "script": "replay/drivers/bnd_regrid.py", "args": ["--json"], "timeout": 1200}]}
+BOUNDED = {"C16": [{"name": "regrid-links", "script": "replay/drivers/bnd_regrid.py", "args": ["--json"], "timeout": 1200},
+                   {"name": "grid-layouts", "script": "replay/drivers/bnd_grids.py", "args": ["--json"], "timeout": 3000}]}
 REPLAY = {f"{AR}._get_in_coords": "bnd_regrid.py", f"{AR}._get_out_coords": "bnd_regrid.py", f"{AR}._need_mask": "bnd_regrid.py"}
